@@ -270,8 +270,7 @@ class FuzzyUnion(SameArrayShapeMixin, Command):
             arrays, lineno=self.argument_lines.get("InFieldNames")
         )
 
-        result = sum(arrays)
-        result /= float(len(arrays))
+        result = sum(arrays) / float(len(arrays))
 
         return insure_fuzzy(result, FUZZY_MIN, FUZZY_MAX)
 
